@@ -249,6 +249,6 @@ def cartesian(ctx, rng, idx):
 @group(quick=200, thorough=3000)
 def traffic(ctx, rng, idx):
     """meshes built by the other generators (every kind used by the workloads of the other checks)"""
-    m, d = gen.mesh1d(rng, nmin=1, nmax=60)
+    m, d = gen.mesh1d(rng, nmin=1, nmax=60, big=0.05)
     ctx.describe(**d)
     ctx.nontrivial(d)
